@@ -1,6 +1,8 @@
 """C07 - Python and generated C++ filters agree step for step."""
 from __future__ import annotations
 
+import math
+
 import numpy as np
 
 from .. import build, cppdrv, gen, monitors, oracle as O
@@ -270,9 +272,33 @@ def run_unit(unit, ctx):
             last = tail[-1]
             conds = [float(np.linalg.cond(s[9])) for s in tail if s[0] == "SM"] or [1.0]
             sc = max(conds) ** len(conds) * max(1.0, float(np.max(np.abs(np.array(last[6])))))
-            vs = _cmp_state(R, "free-running tail", last[5], cx, sc, w, "free-running")
-            vs += _cmp_cov(R, "free-running tail", last[6], cP, sc, names, w, "free-running")
-            R.add(vs)
+            # how strongly do these three steps amplify a difference of the size the per-step comparison allows?
+            # measured, not assumed: the Python tail is run again from a start perturbed by 1e-9 (relative and
+            # absolute); an expansive model (a quadratic map, a nearly noise-free reading) magnifies it by many
+            # orders and the free-running estimates may then differ by that much without either side being wrong
+            try:
+                st_p = ekf.State(**{n_: v_ * (1 + 1e-9) + 1e-9 for n_, v_ in tail[0][3].items()})
+                cov_p = monitors.cov_from_matrix(ekf.Covariance, np.array(tail[0][4], dtype=float) * (1 + 1e-9), names)
+                for s_ in tail:
+                    if s_[0] == "PM":
+                        r_ = ekf.process_model(s_[1], st_p, cov_p, ekf.Control(**s_[2]))
+                    else:
+                        r_ = ekf.sensor_model(st_p, cov_p, sensor_key=s_[1], sensor_reading=ekf.make_reading(s_[1], **s_[2]))
+                    st_p, cov_p = r_[0], r_[1]
+                xp = monitors.vec_dict(st_p)
+                dev = max([abs(xp[n_] - last[5][n_]) for n_ in last[5]]
+                          + [float(np.max(np.abs(monitors.cov_matrix(cov_p, names) - np.array(last[6], dtype=float)), initial=0.0))])
+                R.stats.mx("free_running_measured_amplification", dev / 1e-9)
+            except Exception:  # noqa: BLE001 - the perturbed sequence left the valid region: nothing to compare against
+                dev = float("inf")
+            if not math.isfinite(dev) or dev > 1e-3 * max(1.0, float(np.max(np.abs(np.array(last[6]))))):
+                R.stats.inc("free_running_tails_too_expansive_to_compare")
+            else:
+                sc = sc + 100.0 * dev / 1e-9
+                vs = _cmp_state(R, "free-running tail", last[5], cx, sc, w, "free-running")
+                vs += _cmp_cov(R, "free-running tail", last[6], cP, sc, names, w, "free-running")
+                R.add(vs)
+                R.stats.inc("free_running_tails_compared")
         if not R.samples:
             R.samples.append({"definition": K.brief_defn(defn), "k": k, "cse_python": cse_py, "cse_cpp": cse_cpp,
                               "compiler": compiler, "schedule": [(s[0], s[1]) for s in steps],
